@@ -49,7 +49,8 @@ RunCode(code, stack) ==
        ELSE LET y == stack[Len(stack)]  x == stack[Len(stack) - 1]
                 r == IF ~x.ok \/ ~y.ok THEN Bad
                      ELSE IF TooBig(x.v) \/ TooBig(y.v) THEN Bad
-                     ELSE IF c.op = "/" /\ RIsZero(y.v) THEN Bad ELSE Good(RBin(c.op, x.v, y.v))
+                     ELSE IF c.op = "/" /\ RIsZero(y.v) THEN Bad
+                     ELSE IF TooBig(RBin(c.op, x.v, y.v)) THEN Bad ELSE Good(RBin(c.op, x.v, y.v))
             IN  RunCode(Tail(code), Append(SubSeq(stack, 1, Len(stack) - 2), r))
 StackRefines == LET r == RunCode(Code(e), <<>>) IN Len(r) = 1 /\ r[1] = Ev(e)
 
